@@ -21,6 +21,8 @@ type namedString string
 type namedBytes []byte
 type namedFloat float64
 type namedBool bool
+type namedArr [3]byte
+type namedByte uint8
 type strStringer string
 
 func (s strStringer) String() string { return "S(" + string(s) + ")" }
@@ -139,13 +141,20 @@ func universe(r *rand.Rand) []interface{} {
 		redact.SafeString(s), redact.SafeInt(n), redact.SafeUint(uint32(n)), redact.SafeFloat(float64(n) / 3), redact.SafeRune(rune(n)),
 		make(chan int), func() {}, [][]interface{}{{1, s}, {nil}}, []error{errors.New(s), nil}, []fmt.Stringer{strStringer(s)},
 		[]*inner{&in, nil}, map[string]interface{}{"e": errors.New(s), "n": nil},
+		struct {
+			A fmt.Stringer
+			B int
+			C string
+		}{panicStringer{s}, n, s},
+		[]interface{}{panicStringer{"p"}, s, uint8(n), n}, []interface{}{panicErr{s}, echoFormatter{"after"}},
+		map[string]interface{}{"a": panicStringer{"m"}, "b": s, "c": uint(7)}, namedArr{1, 2, 'c'}, [2]namedByte{3, 'z'},
 	}
 }
 
 var diffVerbs = []string{"v", "v", "v", "s", "d", "q", "x", "X", "t", "b", "o", "O", "c", "U", "e", "E", "f", "F", "g", "G", "p", "T", "Z", "é", "!", "z", "%"}
 var diffFlags = []string{"", "", "", "+", "-", "#", " ", "0", "0", "+#", "#0", "+0", "+ ", "-#", "# ", "+#0 "}
-var diffWidths = []string{"", "", "", "1", "5", "12", "70", "100", "1000", "*", "[2]*", "[1]", "[3]", "[9]"}
-var diffPrecs = []string{"", "", "", ".", ".0", ".2", ".10", ".80", ".*", ".[1]*"}
+var diffWidths = []string{"", "", "", "1", "5", "12", "70", "100", "1000", "*", "[2]*", "[1]", "[3]", "[9]", "[0]", "[0]*", "[1]*", "[2]*[1]"}
+var diffPrecs = []string{"", "", "", ".", ".0", ".2", ".10", ".80", ".*", ".[1]*", ".[0]*", ".[2]*[1]"}
 var diffLits = []string{"", "", " ", "lit", "‹", "›x", "\n", "é", "%%", "a‹b›c", "\xE2\x80"}
 
 func randFormat(r *rand.Rand) string {
@@ -161,6 +170,20 @@ func randFormat(r *rand.Rand) string {
 		sb.WriteString("%")
 	}
 	return sb.String()
+}
+
+func hasWidthOrPrec(f string) bool {
+	for _, d := range strings.Split(f, "%")[1:] {
+		for _, c := range d {
+			if c >= '1' && c <= '9' || c == '*' || c == '.' {
+				return true
+			}
+			if c >= 'a' && c <= 'z' || c >= 'A' && c <= 'Z' {
+				break
+			}
+		}
+	}
+	return false
 }
 
 // excludedFormat: directives whose fmt semantics changed across Go releases (C04's own exclusions).
@@ -257,6 +280,12 @@ func runDiff(rep *lib.Report, c diffCase) {
 	}
 	got := redact.RedactableString(red).StripMarkers()
 	want := string(lib.EscapeAll([]byte(std)))
+	if got != want && strings.Contains(std, "(PANIC=") && hasWidthOrPrec(c.Format) {
+		// toolchain drift (O1): after a contained panic Go >= 1.21's fmt has lost the directive's width and
+		// precision (clearflags zeroes them, only the flag bits are restored); the fork's base keeps them
+		rep.Nontrivial("skipped:panic+width")
+		return
+	}
 	if got != want && !utf8.ValidString(c.Format) && c.Route%2 == 0 &&
 		strings.ReplaceAll(got, "?", "") == strings.ReplaceAll(want, "?", "") {
 		// F7: a format literal that ends in a truncated multi-byte sequence gets the '?' guard
@@ -270,8 +299,13 @@ func runDiff(rep *lib.Report, c diffCase) {
 func fmtdiffDrive(args []string) {
 	fs := flag.NewFlagSet("fmtdiff-drive", flag.ExitOnError)
 	n := fs.Int("n", 200000, "")
+	prop := fs.String("prop", "C04", "")
 	fs.Parse(args)
-	rep := lib.NewReport("C04", "fmtdiff-drive")
+	rep := lib.NewReport(*prop, "fmtdiff-drive")
+	if *prop == "C11" {
+		// C11 only asks that redact does not panic where fmt does not
+		rep.Filter = func(sig string) bool { return strings.Contains(sig, "panic") }
+	}
 	usize := len(universe(rand.New(rand.NewSource(1))))
 	rep.Extra["universe_size"] = usize
 	shard(*n, lib.Seed(), func(r *rand.Rand, cnt int) {
